@@ -110,6 +110,8 @@ struct Ctx<'a, T: Fl> {
     /// distance(query, data[i]) and distance(data[i], query) (bit-identical for the four metrics)
     d_qx: Vec<T>,
     d_xq: Vec<T>,
+    /// distance(data[i], data[j]) with the same Distance object (evaluated only when a violation is classified)
+    pair: &'a dyn Fn(usize, usize) -> T,
 }
 
 impl<'a, T: Fl> Ctx<'a, T> {
@@ -146,13 +148,56 @@ fn check_entries<T: Fl>(cx: &Ctx<T>, hits: &Hits<'_, T>) -> Option<(&'static str
     None
 }
 
-/// True when every expected-but-missing distance lies within a rounding-level margin below the
-/// pruning bound (the k-th smallest distance, resp. the radius): the margin is 32 eps x (bound +
-/// 2 x largest query-to-data distance), an upper bound of a few roundings of `bound + max_dist`.
-/// Such misses are a different defect class (floating-point triangle inequality) from a wrong bound.
-fn only_boundary_rounding<T: Fl>(missing: &[T], bound: T, dmax: T) -> bool {
+/// Number of significant mantissa bits of `x` (0 for 0).
+fn sig_bits(x: f64) -> (u32, i32) {
+    if x == 0.0 || !x.is_finite() {
+        return (0, 0);
+    }
+    let b = x.abs().to_bits();
+    let e = ((b >> 52) & 0x7ff) as i32;
+    let m = if e == 0 { b & ((1 << 52) - 1) } else { (b & ((1 << 52) - 1)) | (1 << 52) };
+    (64 - m.leading_zeros() - m.trailing_zeros(), e.max(1) - 1075 + (64 - m.leading_zeros()) as i32)
+}
+
+/// True when every distance the cover tree can combine for this (data, query, bound) — query-to-data,
+/// data-to-data, the bound itself — is a short dyadic number, so that `bound + max_dist` and every
+/// comparison are exact: floating-point rounding cannot explain a miss on such an input.
+fn arithmetic_is_exact<T: Fl>(cx: &Ctx<T>, bound: T) -> bool {
+    let (max_sig, max_spread) = if T::NAME == "f32" { (8u32, 14i32) } else { (20u32, 30i32) };
+    let n = cx.pts.len();
+    let (mut lo, mut hi) = (i32::MAX, i32::MIN);
+    let mut ok = true;
+    let mut see = |v: T| {
+        let (s, e) = sig_bits(v.f());
+        if s > max_sig {
+            ok = false;
+        }
+        if s > 0 {
+            lo = lo.min(e);
+            hi = hi.max(e);
+        }
+    };
+    see(bound);
+    for i in 0..n {
+        see(cx.d_xq[i]);
+        see(cx.d_qx[i]);
+        for j in 0..i {
+            see((cx.pair)(i, j));
+            see((cx.pair)(j, i));
+        }
+    }
+    ok && (lo == i32::MAX || hi - lo <= max_spread)
+}
+
+/// The input class "boundary-rounding": every expected-but-missing distance lies within a
+/// rounding-level margin below the pruning bound (the k-th smallest distance, resp. the radius) —
+/// 32 eps x (bound + 2 x largest query-to-data distance), an upper bound of a few roundings of
+/// `bound + max_dist` — AND the distances involved are not exactly representable short dyadic
+/// numbers. Such misses (floating-point triangle inequality) are a different defect from a wrong
+/// pruning bound, which also loses points on exactly representable inputs or by a wide margin.
+fn only_boundary_rounding<T: Fl>(cx: &Ctx<T>, missing: &[T], bound: T, dmax: T) -> bool {
     let tol = T::of(32.0) * T::epsilon() * (bound + T::two() * dmax);
-    missing.iter().all(|m| bound - *m <= tol)
+    !missing.is_empty() && missing.iter().all(|m| bound - *m <= tol) && !arithmetic_is_exact(cx, bound)
 }
 
 fn run_structure<T: Fl, S: Nn<T>>(cx: &Ctx<T>, s: &S, q: &Vec<T>, opts: &Opts, digest: &mut u64) {
@@ -162,6 +207,11 @@ fn run_structure<T: Fl, S: Nn<T>>(cx: &Ctx<T>, s: &S, q: &Vec<T>, opts: &Opts, d
     sorted.sort_by(|a, b| a.partial_cmp(b).unwrap());
     let viol = |op: &str, clause: &str, what: String| {
         mc::violation(format!("{}.{}:{}:{}", S::NAME, op, cx.class, clause), format!("{}: {}", cx.show(), what));
+    };
+    // a miss of the class "boundary-rounding" is keyed by that class instead of the data class
+    let viol_r = |rounding: bool, op: &str, clause: &str, what: String| {
+        let class = if rounding { "boundary-rounding" } else { cx.class };
+        mc::violation(format!("{}.{}:{}:{}", S::NAME, op, class, clause), format!("{}: {}", cx.show(), what));
     };
 
     // ---- k nearest
@@ -220,11 +270,19 @@ fn run_structure<T: Fl, S: Nn<T>>(cx: &Ctx<T>, s: &S, q: &Vec<T>, opts: &Opts, d
                             missing.push(*w);
                         }
                     }
-                    let rounding = !missing.is_empty() && only_boundary_rounding(&missing, sorted[k - 1], sorted[n - 1]);
-                    let clause = format!("{}{}", if hits.len() != k { "wrong-count" } else { "not-k-smallest" }, if rounding { ":pruning-boundary-rounding" } else { "" });
-                    viol(
+                    // rounding-level: k entries whose distances exceed the optimal ones by no more than the
+                    // rounding margin, or fewer entries with only points at the k-th distance missing
+                    let rounding = if hits.len() == k {
+                        let tol = T::of(32.0) * T::epsilon() * (sorted[k - 1] + T::two() * sorted[n - 1]);
+                        got.iter().zip(sorted.iter()).all(|(g, w)| *g - *w <= tol) && !arithmetic_is_exact(cx, sorted[k - 1])
+                    } else {
+                        only_boundary_rounding(cx, &missing, sorted[k - 1], sorted[n - 1])
+                    };
+                    let clause = if hits.len() != k { "wrong-count" } else { "not-k-smallest" };
+                    viol_r(
+                        rounding,
                         "find",
-                        &clause,
+                        clause,
                         format!(
                             "k={}: {} entries with distances {:?}, the k smallest are {:?} (missing {:?}); returned {}",
                             k,
@@ -299,14 +357,9 @@ fn run_structure<T: Fl, S: Nn<T>>(cx: &Ctx<T>, s: &S, q: &Vec<T>, opts: &Opts, d
                 let want: Vec<usize> = (0..n).filter(|&i| d[i] <= r).collect();
                 if got != want {
                     let missing: Vec<T> = want.iter().filter(|i| !got.contains(i)).map(|&i| d[i]).collect();
-                    let clause = if missing.is_empty() {
-                        "point-beyond-radius-returned"
-                    } else if only_boundary_rounding(&missing, r, sorted[n - 1]) {
-                        "point-within-radius-missing:pruning-boundary-rounding"
-                    } else {
-                        "point-within-radius-missing"
-                    };
-                    viol(
+                    let clause = if missing.is_empty() { "point-beyond-radius-returned" } else { "point-within-radius-missing" };
+                    viol_r(
+                        only_boundary_rounding(cx, &missing, r, sorted[n - 1]),
                         "find_radius",
                         clause,
                         format!("r={:?}: returned indices {:?}, the points at distance <= r are {:?} (distances {:?})", r.f(), got, want, d.iter().map(|x| x.f()).collect::<Vec<_>>()),
@@ -328,7 +381,8 @@ fn with_metric<T: Fl, D: Distance<Vec<T>, T>>(dist: D, metric: Metric, data: &[V
     let class = data_class(data);
     let d_qx: Vec<T> = pts.iter().map(|x| dist.distance(&q, x)).collect();
     let d_xq: Vec<T> = pts.iter().map(|x| dist.distance(x, &q)).collect();
-    let cx = Ctx { metric, class, data, pts: &pts, query, d_qx, d_xq };
+    let pair = |i: usize, j: usize| dist.distance(&pts[i], &pts[j]);
+    let cx = Ctx { metric, class, data, pts: &pts, query, d_qx, d_xq, pair: &pair };
 
     // ---- counters (decided by the oracle from the input)
     {
